@@ -158,6 +158,9 @@ def run(ctx) -> None:
              "STRICTLY before the stage the run starts from: a placeholder that is not RUNNING is skipped by the graph when further "
              "iterations are instantiated, so freezing the placeholder of a loop that still iterates leaves 'latest' and 'represents' at the "
              "instance of the restart")
+    ctx.rule("C05.R10-iteration-numbers-are-whole", "a regular expression of graph.py / flowir.py that matches the '<iteration>#' prefix of an instance name "
+             "repeats the digit class without an upper bound (decided on the parsed pattern); the tree recognises instances with '#' "
+             "membership and split('#', 1), which need no pattern")
     ctx.rule("C05.R6-state-from-latest", "currentCondition/currentIteration derive from the instance with the numerically highest iteration")
 
     mods = [ctx.repo.module(r) for r in SCOPE]
@@ -556,7 +559,98 @@ def run(ctx) -> None:
            construct="dw['state'] = {currentCondition, currentIteration} from latest")
 
     check_placeholder_match(ctx, g)
+    check_iteration_patterns(ctx, [g, ctx.repo.module("python/experiment/model/frontends/flowir.py")])
     check_frozen_placeholders(ctx, ctx.repo.module(CONTROL))
+
+
+def bounded_iteration_number(pattern: str) -> Optional[str]:
+    """For a regular expression that matches '<digits>#' (the prefix of an instance name '<iteration>#<component>'): the reason why it
+    does not admit EVERY decimal iteration number, or None.  Decided on the parsed pattern."""
+    import re as _re
+    try:
+        parsed = _re._parser.parse(pattern)
+    except Exception:
+        return None
+
+    def is_digit(item) -> bool:
+        op, av = item
+        name = str(op)
+        if name == "IN":
+            return any(str(o) == "CATEGORY" and "DIGIT" in str(a) and "NOT" not in str(a) for o, a in av) or any(
+                str(o) == "RANGE" and a == (48, 57) for o, a in av)
+        return False
+
+    def walk(seq) -> Optional[str]:
+        items = list(seq)
+        for i, (op, av) in enumerate(items):
+            name = str(op)
+            if name == "LITERAL" and av == ord("#") and i > 0:
+                def tail(item) -> Optional[str]:
+                    pop, pav = item
+                    pname = str(pop)
+                    if is_digit(item):
+                        return "a single digit before '#'"
+                    if pname in ("MAX_REPEAT", "MIN_REPEAT", "POSSESSIVE_REPEAT"):
+                        lo, hi, sub = pav
+                        sub = list(sub)
+                        if len(sub) == 1 and is_digit(sub[0]) and str(hi) != "MAXREPEAT":
+                            return "at most %s digits before '#'" % hi
+                        if len(sub) == 1 and str(sub[0][0]) == "SUBPATTERN" and str(hi) != "MAXREPEAT":
+                            return tail(sub[0])
+                    if pname == "SUBPATTERN" and list(pav[3]):
+                        return tail(list(pav[3])[-1])
+                    return None
+                r0 = tail(items[i - 1])
+                if r0:
+                    return r0
+            if name == "SUBPATTERN":
+                r = walk(av[3])
+                if r:
+                    return r
+            elif name in ("MAX_REPEAT", "MIN_REPEAT", "POSSESSIVE_REPEAT"):
+                r = walk(av[2])
+                if r:
+                    return r
+            elif name == "BRANCH":
+                for alt in av[1]:
+                    r = walk(alt)
+                    if r:
+                        return r
+        return None
+    return walk(parsed)
+
+
+def check_iteration_patterns(ctx, mods) -> None:
+    RID = "C05.R10-iteration-numbers-are-whole"
+    # the rule has no instance on a tree that recognises instances with '#' in / split('#'): keep it honest with a positive example
+    ctx.require(bounded_iteration_number(r"\d#") is not None and bounded_iteration_number(r"(\d{1,2})#(.*)") is not None
+                and bounded_iteration_number(r"\d+#") is None and bounded_iteration_number(r"^([0-9]+)#") is None,
+                "self-test of the iteration-number pattern analysis failed")
+    n_rec = 0
+    for m in mods:
+        for q, f in sorted(m.functions.items()):
+            for x in source.walk_own(f):
+                # recognisers of instance names that do not use a pattern: '#' in name / name.split('#', 1)
+                if (isinstance(x, ast.Compare) and isinstance(x.ops[0], (ast.In, ast.NotIn)) and isinstance(x.left, ast.Constant) and x.left.value == "#") or (
+                        isinstance(x, ast.Call) and last_attr(x) == "split" and x.args and isinstance(x.args[0], ast.Constant) and x.args[0].value == "#"):
+                    n_rec += 1
+                if isinstance(x, ast.Call) and isinstance(x.func, ast.Attribute) and isinstance(x.func.value, ast.Name) and x.func.value.id == "re" and x.args:
+                    pats = [c.value for c in ast.walk(x.args[0]) if isinstance(c, ast.Constant) and isinstance(c.value, str) and "#" in c.value]
+                    if isinstance(x.args[0], ast.Name):
+                        pats += [c.value for v in match.assigned_value(f, x.args[0].id) for c in ast.walk(v)
+                                 if isinstance(c, ast.Constant) and isinstance(c.value, str) and "#" in c.value]
+                    for pt in pats:
+                        why = bounded_iteration_number(pt)
+                        ctx.analysed(f)
+                        ctx.ob(RID, x, why is None,
+                               "the pattern %r admits every iteration number" % pt if why is None else
+                               "%s recognises instance names with %r: %s - '0#work' .. '9#work' match, '10#work' does not: from the eleventh "
+                               "iteration on the instances are no longer seen as looped components, placeholder['latest'], the :loopref list and "
+                               "the loop's current condition stay at iteration 9 and no error is raised" % (q, pt, why),
+                               construct="%s: pattern for '<iteration>#<name>'" % q.split(".")[-1])
+    ctx.floor(RID, n_rec, 8, "recognisers of '<iteration>#<name>' instance names ('#' in .. / split('#')) in graph.py and flowir.py")
+    ctx.ob(RID, mods[0].tree, True, "instance names are recognised by '#' membership / split in %d places; every regular expression for them is checked" % n_rec,
+           construct="recognisers of looped instance names")
 
 
 def check_frozen_placeholders(ctx, ctl) -> None:
